@@ -200,6 +200,25 @@ CHECKS["C13"] = dict(
     technique="Lean 4 proof (fold additivity, toggle laws, energy identities by the symmetric bilinear form) + selection-sequence correspondence + identities checked on the real post-processors",
 )
 
+CHECKS["C12"] = dict(
+    category="proof",
+    text=("Translator tools/translate_locate.py reads the outward-search loop headers of PostProcessor::InTriangle and "
+          "FPProc::InTriangle into Generated/Locate.lean. Lean theorems over Model/Locate.lean: with that many rounds the "
+          "hi/lo search started from ANY previous hit probes EVERY element of a mesh of any size (so the result does not "
+          "depend on the query history); the node-index-ordered side test evaluates one expression per shared edge, so a "
+          "point is never rejected by both neighbours in any totally ordered arithmetic (no gaps on edges); the interpolant "
+          "returns the nodal value at nodes, reproduces affine fields exactly and is single-valued on a shared edge "
+          "(continuity). Tied to the code by running Model/Locate.lean's interp at Float against the values the real "
+          "post-processors return. Decided on the real tools (electrostatics, heat, planar magnetics, smoothing off) by an "
+          "exact rational oracle on the solution-file mesh: found <=> the point is in the closed meshed region; value = exact "
+          "barycentric interpolant; field = gradient / curl of it; material data = those of the block; over all ordered "
+          "(previous hit, next element) pairs of small even/odd meshes and shuffled sequences of centroids, edge points, "
+          "adversarial edge points (those a position-ordered side test loses in doubles), nodes, points ulps off nodes, "
+          "near-boundary, hole and outside points."),
+    design_ref="DESIGN.md section 3, C12",
+    technique="Lean 4 proof (search coverage by arithmetic on the translated loop bound, edge consistency, interpolation laws) + translator + Float correspondence + exact-arithmetic point-location oracle on the real post-processors",
+)
+
 NOT_YET = "check not built yet in this round; planned per DESIGN.md section 3 (Lean model + correspondence)"
 
 
